@@ -12,6 +12,8 @@ CONSTANTS MaxLen,      \* number of steps (a `..X` pair counts as one)
           DocSet,      \* "small" | "full"
           FuncSet      \* "small" | "full"   which trailing function sequences
 
+\* spelling checks (C18) also need a key outside ASCII, with a document that holds it
+kE == <<233>>
 Scalars == {Null, Bool(TRUE), N1, N2, Sa}
 Inner == {N1, Sa, Null, A0, O0, Arr(<<N1, N2>>), Arr(<<Oa(N1)>>),
           Oa(N1), Oab(N2, N1), Ob(Oa(N1)), Oa(Arr(<<N1, N2>>))}
@@ -36,7 +38,8 @@ DocsPairs == Scalars \cup {Arr(s) : s \in SeqsUpTo(InnerP, 2)} \cup ObjsOver(Inn
 InnerT == IF DocSet = "small" THEN {N1, A0, Arr(<<N1, N2>>), Oa(N1), Oab(N2, N1), Oa(Arr(<<N1, N2>>))}
           ELSE {N1, Sa, A0, O0, Arr(<<N1, N2>>), Oa(N1), Oab(N2, N1), Oa(Arr(<<N1, N2>>))}
 DocsTriples == {N1} \cup {Arr(s) : s \in SeqsUpTo(InnerT, 2)} \cup {Oab(x, y) : x \in InnerT, y \in InnerT} \cup Deep
-Docs == IF Scope = "pairs" THEN DocsPairs ELSE DocsTriples
+DocsSpell == IF Spellings = "all" THEN {Obj(<<KV(ka, N1), KV(kE, Oa(N2))>>), Arr(<<Obj(<<KV(kE, N1)>>)>>)} ELSE {}
+Docs == (IF Scope = "pairs" THEN DocsPairs ELSE DocsTriples) \cup DocsSpell
 
 Pa == Cur(<<Nm(ka)>>)   Pb == Cur(<<Nm(kb)>>)
 Queries == {
@@ -80,7 +83,9 @@ SigmaPairs == {Nm(ka), Nm(kb), Wild} \cup Brackets \cup {Flt(q) : q \in (IF DocS
 SigmaTriples == {Nm(ka), Nm(kb), Wild, Multi(<<Nm(ka), Nm(kb)>>), Multi(<<Wild, Wild>>), Multi(<<Wild, Nm(ka)>>),
                  Un(<<Idx(0)>>), Un(<<Idx(1), Idx(0)>>), Un(<<Sl(0, TRUE, 0, TRUE, -1, FALSE)>>), Un(<<Star, Idx(0)>>)}
                 \cup {Flt(q) : q \in QueriesT}
-Sigma == IF Scope = "pairs" THEN SigmaPairs ELSE SigmaTriples
+\* non-ASCII key for the spelling checks
+SigmaSpell == IF Spellings = "all" THEN {Nm(kE), Multi(<<Nm(kE), Nm(ka)>>)} ELSE {}
+Sigma == (IF Scope = "pairs" THEN SigmaPairs ELSE SigmaTriples) \cup SigmaSpell
 
 F1 == {FF(Fn_f1), FF(Fn_fodd), FF(Fn_ferr), AF(Fn_g1), AF(Fn_gerr)}
 F2 == {FF(Fn_f2), AF(Fn_g2), FF(Fn_f3)}
